@@ -1107,7 +1107,7 @@ impl InstrFormat for OldeEclHooks {
     fn read_instr(&self, f: &mut BinReader, emitter: &dyn Emitter) -> ReadResult<ReadInstr> {
         let time = f.read_i32()?;
         let opcode = f.read_u16()?;
-        let size = f.read_i16()? as usize;
+        let size = f.read_i16()?;
         let before_difficulty = f.read_u8()?;  // according to zero, not referenced in any game
         let difficulty = f.read_u8()?;
         let param_mask = f.read_u16()?;
@@ -1123,7 +1123,10 @@ impl InstrFormat for OldeEclHooks {
             )).ignore();
         }
 
-        let args_blob = f.read_byte_vec(size - self.instr_header_size())?;
+        let args_size = usize::try_from(size).ok().and_then(|size| size.checked_sub(self.instr_header_size())).ok_or_else(|| {
+            emitter.as_sized().emit(error!("bad instruction size ({} < {})", size, self.instr_header_size()))
+        })?;
+        let args_blob = f.read_byte_vec(args_size)?;
 
         let instr = RawInstr {
             time, opcode, args_blob,
@@ -1193,9 +1196,9 @@ impl InstrFormat for TimelineFormat06 {
         }
 
         let opcode = f.read_u16()?;
-        let size = f.read_i16()? as usize;
+        let size = f.read_i16()?;
 
-        let args_size = size.checked_sub(self.instr_header_size()).ok_or_else(|| {
+        let args_size = usize::try_from(size).ok().and_then(|size| size.checked_sub(self.instr_header_size())).ok_or_else(|| {
             emitter.as_sized().emit(error!("bad instruction size ({} < {})", size, self.instr_header_size()))
         })?;
         let args_blob = f.read_byte_vec(args_size)?;
